@@ -1,6 +1,7 @@
 (* Property C13, mask / purge clauses ("purging and decommitting only ever affect memory that holds no live block, and the
    allocator never reads or writes memory it has decommitted") at the level of the commit/purge masks of a segment and of
-   mi_os_page_align_areax.  The coordinator's Properties/C13.v builds on these.
+   mi_os_page_align_areax.  This is the property file of C13 (there is no
+   Properties/C13.v); the option matrix on the real allocator is tools/props/C13.py.
    Only statements closed by `exact <lemma>`, Print Assumptions, and Examples. *)
 From Coq Require Import NArith ZArith List Bool.
 From MiV Require Import Gen.Consts Gen.OsConsts Model.Arith Model.Os Model.Mask Model.Purge
